@@ -594,7 +594,7 @@ impl<'a> Run<'a> {
         };
         let len = self.in_pending.unwrap();
         let r = self.call(Req::Write { data }, "write")?;
-        let Resp::Write { res, .. } = r else { return Err(Abort::Mach("unexpected response to Write".into())) };
+        let Resp::Write { res } = r else { return Err(Abort::Mach("unexpected response to Write".into())) };
         match res {
             None => {
                 self.note(format!("WriteIn({len}) -> Pending"));
@@ -650,7 +650,7 @@ impl<'a> Run<'a> {
             return Ok(true);
         }
         let r = self.call(Req::WaitPoll, "wait")?;
-        let Resp::Wait { res, .. } = r else { return Err(Abort::Mach("unexpected response to WaitPoll".into())) };
+        let Resp::Wait { res } = r else { return Err(Abort::Mach("unexpected response to WaitPoll".into())) };
         match res {
             None => {
                 self.wait = WaitSt::Pending;
